@@ -25,6 +25,14 @@ Theorem c11_tag_layout : forall t ts p,
 Proof. intros t ts p H1 H2 H3. apply pack_tag_layout; repeat split; assumption. Qed.
 Print Assumptions c11_tag_layout.
 
+(* Tag.ModTagTimestamp: a re-stamped tag is byte for byte the tag packed with the new timestamp *)
+Theorem c11_mod_timestamp : forall t ts ts' p,
+  t < 256 -> ts < 4294967296 -> lenN p < 16777216 -> ts' < 4294967296 ->
+  mod_tag_timestamp {| tg_header := {| th_type := t; th_size := lenN p; th_ts := ts |}; tg_raw := pack_tag t ts p |} ts'
+  = {| tg_header := {| th_type := t; th_size := lenN p; th_ts := ts' |}; tg_raw := pack_tag t ts' p |}.
+Proof. intros t ts ts' p H1 H2 H3 H4. apply mod_tag_timestamp_pack; [repeat split; assumption|exact H4]. Qed.
+Print Assumptions c11_mod_timestamp.
+
 (* a conforming FLV parser reads header + any tag sequence back (recordings,
    HTTP-FLV bodies): same tags, same order, nothing else *)
 Theorem c11_stream_valid : forall tags,
